@@ -79,12 +79,33 @@ def generate(rng, tier):
         L = rng.choice([1, 2, 3])
         lines = [rng.choice([0, 1, 3, 4, 3]) for _ in range(L)]
         cases.append({"kind": "handshake", "lines": lines, "offered": rng.choice([0, 1, 2]), "file": render(lines, ks, rng).encode().hex()})
+    # histories: the same authorized_keys file edited between logins (also twice within one second, also with its
+    # modification time preserved): every login is decided by what the file says at that moment
+    for i in range(2 if tier == "quick" else 12):
+        steps = []
+        for k in range(rng.choice([3, 4])):
+            L = rng.choice([1, 2, 3])
+            lines = [rng.choice([0, 1, 3, 4, 5, 3]) for _ in range(L)]
+            steps.append({"lines": lines, "offered": rng.choice([0, 1, 2]), "file": render(lines, ks, rng).encode().hex(),
+                          "keep_mtime": rng.random() < 0.6})
+        cases.append({"kind": "hshist", "steps": steps})
     return cases
+
+
+def _login(env, s, keyfile):
+    cmd = [os.path.join(srv.BIN, "dcat"), "--cfg", "none", "--servers", "127.0.0.1:%d" % s.port, "--trustAllHosts",
+           "--key", keyfile, "--user", "root", "--plain", "--files", os.path.join(env.dir, "hs.txt")]
+    try:
+        p = subprocess.run(cmd, stdin=subprocess.DEVNULL, stdout=subprocess.PIPE, stderr=subprocess.PIPE, env=env.client_env(), timeout=40, cwd=env.dir)
+        out = p.stdout
+    except subprocess.TimeoutExpired as e:
+        out = e.stdout or b""
+    return b"handshake-content" in out
 
 
 def run_impl(cases, tier):
     env, ks = _state["env"], _state["keys"]
-    direct = [i for i, c in enumerate(cases) if c["kind"] != "handshake"]
+    direct = [i for i, c in enumerate(cases) if c["kind"] not in ("handshake", "hshist")]
     send = []
     for i in direct:
         c = cases[i]
@@ -99,6 +120,20 @@ def run_impl(cases, tier):
     # real handshakes: one server per case (its cache/<user>.authorized_keys is the case's file)
     open(os.path.join(env.dir, "hs.txt"), "w").write("handshake-content\n")
     for i, c in enumerate(cases):
+        if c["kind"] == "hshist":
+            s = env.start_server("hh%d" % i, authorized=bytes.fromhex(c["steps"][0]["file"]).decode())
+            akf = os.path.join(s.dir, "cache", "root.authorized_keys")
+            t0 = int(os.stat(akf).st_mtime)
+            acc = []
+            for st in c["steps"]:
+                with open(akf, "w") as f:
+                    f.write(bytes.fromhex(st["file"]).decode())
+                if st["keep_mtime"]:
+                    os.utime(akf, (t0, t0))
+                acc.append(_login(env, s, ks[st["offered"]][0]))
+            obs[i] = {"accepted_steps": acc}
+            s.stop()
+            continue
         if c["kind"] != "handshake":
             continue
         s = env.start_server("hs%d" % i, authorized=bytes.fromhex(c["file"]).decode())
@@ -120,6 +155,16 @@ def judge(cases, obs, tier):
     for i, (c, o) in enumerate(zip(cases, obs)):
         if o is None or "panic" in o:
             oracle[i] = "implementation failed: %s" % (o,)
+            continue
+        if c["kind"] == "hshist":
+            for k, (st, acc) in enumerate(zip(c["steps"], o["accepted_steps"])):
+                want = (st["offered"] + 3) in st["lines"]
+                if acc != want and i not in oracle:
+                    oracle[i] = "login %d of the history: offered key %d %s although the file lists keys %s at that moment (file rewritten before the login%s)" % (
+                        k + 1, st["offered"], "accepted" if acc else "rejected", sorted({l - 3 for l in st["lines"] if l >= 3}),
+                        ", modification time preserved" if st["keep_mtime"] else "")
+                kterms.append("(%s, %d, %s)" % (vf.cq_list([str(l) for l in st["lines"]]), st["offered"], vf.cq_bool(acc)))
+                kidx.append(i)
             continue
         if c["kind"] in ("keys", "handshake"):
             want = (c["offered"] + 3) in c["lines"]
@@ -160,10 +205,14 @@ def classify(case, ob, detail):
 def nontrivial(c):
     if c["kind"] == "password":
         return c["user"].startswith("DTAIL-") and (c["schedule"] or c["continuous"])
+    if c["kind"] == "hshist":
+        return True
     return len(c["lines"]) >= 2 and any(l < 3 for l in c["lines"])
 
 
 def sample(c, o):
     if c["kind"] == "password":
         return {k: c[k] for k in ("user", "password", "remote", "schedule", "continuous")} | {"granted": (o or {}).get("granted")}
+    if c["kind"] == "hshist":
+        return {"kind": "hshist", "steps": [(st["lines"], st["offered"], st["keep_mtime"]) for st in c["steps"]], "accepted": (o or {}).get("accepted_steps")}
     return {"kind": c["kind"], "lines": c["lines"], "offered_key": c["offered"], "file": bytes.fromhex(c["file"]).decode()[:200], "accepted": (o or {}).get("accepted")}
